@@ -152,6 +152,27 @@ def v_bytesn(ex, g, fid, args):
     return Slice(arr, 0, n, n)
 
 
+@vfunc("vOpaque")
+def v_opaque(ex, g, fid, args):
+    """byte slice of symbolic length 0..max with untracked contents"""
+    mx = args[0]
+    n = ex.fresh("q", 64)
+    if is_sym(n):
+        ex.assume(z3.And(n >= 0, n <= mx))
+        return Opaque(n)
+    n = norm(n, 64, True)
+    if n < 0 or n > mx:
+        raise PathEnd("assume")
+    return Slice([0] * n, 0, n, n)
+
+
+@vfunc("vDone")
+def v_done(ex, g, fid, args):
+    """end the path here with verdict ok"""
+    ex.fail_assert(args[0], pystr(args[1]))
+    raise PathEnd("ok")
+
+
 @vfunc("vAssume")
 def v_assume(ex, g, fid, args):
     ex.assume(args[0])
